@@ -296,6 +296,9 @@ def falsy_domain_zero(fn, mod=None):
       tested = False      # `x or y` / `c and x` as a value: the last operand is returned, not tested
     if isinstance(par, ast.comprehension) and any(f is n for f in par.ifs):
       tested = True
+    # `x or 0` maps None to 0 and 0 to 0: the value 0 is not lost
+    if isinstance(par, ast.BoolOp) and isinstance(par.op, ast.Or) and len(par.values) == 2 and par.values[0] is n and U.const_value(par.values[1]) == 0:
+      tested = False
     if tested:
       out.append(Site('falsy-domain-zero', par if isinstance(par, ast.expr) else n, BAD,
                       '%s tests the truth of %s (None / empty stands for "not given"); %s: the value 0 is treated as "not given"' % (norm_text(par)[:70] if isinstance(par, ast.expr) else 'if ' + n.id, n.id, ordinary[n.id])))
@@ -538,6 +541,7 @@ SELF_EXAMPLES = [
     ('falsy-domain-zero', 'def f(notes, instrument=None):\n  return [n for n in notes if not instrument or n.instrument == instrument]\n', BAD),
     ('falsy-domain-zero', 'def f(notes, instrument=None):\n  return [n for n in notes if instrument is None or n.instrument == instrument]\n', None),
     ('falsy-domain-zero', 'def f(notes, limit=None):\n  return [n for n in notes if not limit or n.end_time < limit]\n', None),
+    ('falsy-domain-zero', 'def f(notes, instrument=None):\n  wanted = instrument or 0\n  return [n for n in notes if n.instrument == wanted or n.instrument == instrument]\n', None),
     ('stale-sibling', 'def f(m):\n  t = 0.0\n  prev, scale = m.rows[0]\n  for tick, s in m.rows:\n    t += (tick - prev) * scale\n    prev, scale = tick, s\n  return t\n', OK),
 ]
 
